@@ -597,6 +597,30 @@ def impl(c):
     def has(o, name):
         return hasattr(type(o), name)
 
+    def scan_moved():
+        """the known finding C31-o2m-member-moved-to-deleted-parent (an INTERMEDIATE flush leaves a row that
+        references a parent whose collection no longer holds it): one-to-many without a many-to-one side, a
+        persistent member whose foreign key names another row is an ADDED member of a parent that is deleted"""
+        for o in list(sess.deleted):
+            for i, (kind, a, b, fl) in enumerate(rels):
+                if kind == 0 and fl & 2 and not (fl & 1) and isinstance(o, cl[b]) and ("c%d" % i) in inspect(o).dict:
+                    h = attributes.get_history(o, "c%d" % i, passive=attributes.PASSIVE_NO_INITIALIZE)
+                    for ch in h.added or ():
+                        st = inspect(ch)
+                        if st.persistent and st.dict.get("f%d" % i) not in (None, o.id):
+                            trouble.append("moved")
+
+    def scan_cancel():
+        """an INTERMEDIATE flush that cancels a delete (C30-cancelled-delete-is-only-postponed): the object stays
+        in session.deleted and is deleted by a later flush; nothing is claimed afterwards"""
+        for o in list(sess.deleted):
+            for i, (kind, a, b, fl) in enumerate(rels):
+                if kind == 0 and fl & 2 and isinstance(o, cl[a]):
+                    for p in objs:
+                        if (isinstance(p, cl[b]) and p in sess and p not in sess.deleted and ("c%d" % i) in inspect(p).dict
+                                and o in (attributes.get_history(p, "c%d" % i, passive=attributes.PASSIVE_NO_INITIALIZE).added or ())):
+                            trouble.append("taint")
+
     def run_op(op):
         t = op[0]
         if t == 0:
@@ -673,10 +697,21 @@ def impl(c):
                 ho, to = objs[op[2]], objs[op[3]]
                 if isinstance(ho, cl[a]) and isinstance(to, cl[b]) and inspect(ho).persistent and inspect(to).persistent:
                     sess.connection().exec_driver_sql("update t%d set f%d=%d where id=%d" % (a, i, to.id, ho.id))
-        elif t == 7:
-            sess.flush()
-        elif t == 8:
-            sess.commit()
+        elif t in (7, 8):
+            import warnings
+
+            scan_moved()
+            scan_cancel()
+            with warnings.catch_warnings(record=True) as ws:
+                warnings.simplefilter("always")
+                if t == 7:
+                    sess.flush()
+                else:
+                    sess.commit()
+            if any("not in session" in str(w.message) for w in ws):
+                # a member of a collection was outside the session: the unit of work skips the operation (with
+                # this warning) but commits the collection as it is: memory and database differ from here on
+                trouble.append("taint")
         elif t == 9:
             sess.expire_all()
 
@@ -725,6 +760,14 @@ def impl(c):
                         t = par_of(o, i)
                         if t is not None:
                             tgt.setdefault(id(o), set()).add(id(t))
+                    if kind == 0 and isinstance(o, cl[a]) and fl & 2:
+                        for p in insess:
+                            if (isinstance(p, cl[b]) and id(p) not in deleted and ("c%d" % i) in inspect(p).dict
+                                    and o in (attributes.get_history(p, "c%d" % i, passive=attributes.PASSIVE_NO_INITIALIZE).added or ())):
+                                # the one-to-many presort CANCELS this delete (register_object(cancel_delete=True),
+                                # the known finding C30-cancelled-delete-is-only-postponed): which rows go away is
+                                # decided during the flush, nothing is claimed
+                                consistent = False
                 continue
             for i, (kind, a, b, fl) in enumerate(rels):
                 if kind == 0 and isinstance(o, cl[a]):
@@ -733,6 +776,12 @@ def impl(c):
                         t = par_of(o, i)
                     else:
                         ps = [p for p in insess if isinstance(p, cl[b]) and o in coll_of(p, i)]
+                        if any(isinstance(p, cl[b]) and p not in sess and ("c%d" % i) in inspect(p).dict
+                               and o in getattr(p, "c%d" % i) for p in objs):
+                            # a member of the collection of an object that is NOT in the session (expunged, or
+                            # deleted by an earlier commit): has_parent is set, so the unit of work will not
+                            # clear the key when o leaves its real parent; nothing is claimed
+                            consistent = False
                         if fl >> 5 & 1 and any(("c%d" % i) not in inspect(p).dict for p in ps):
                             consistent = False  # passive_deletes: the unloaded members keep their key
                         if len(ps) > 1:
@@ -742,6 +791,12 @@ def impl(c):
                             t = None  # the ORM sets the fk to NULL when the parent goes away
                     if t is None:
                         if fl >> 3 & 1:
+                            consistent = False
+                        if inspect(o).key is None and getattr(o, "f%d" % i) is not None:
+                            # an object about to be INSERTed that carries a foreign key VALUE no relationship in
+                            # the session accounts for (written into it by an earlier flush while it was a
+                            # member of a collection but expunged, its parent since deleted): the flush writes
+                            # the attribute as it is; nothing is claimed about such rows
                             consistent = False
                     elif id(t) in deleted or t not in sess:
                         consistent = False
@@ -792,6 +847,10 @@ def impl(c):
     conn = sess.connection()
     live0, ref0, sec0 = _dbstate(conn, classes, rels)
 
+    for r_, cc_, t_ in ref0:
+        if objs[r_] not in sess and objs[t_] in sess and id(objs[t_]) in deleted:
+            # the row of an object that left the session (expunge cascade) still references a row to delete
+            consistent = False
     snap = {}
     deps = []  # dependency processors in a fixed order
 
@@ -933,6 +992,7 @@ def impl(c):
     event.listen(eng, "before_cursor_execute", on_exec)
     err = None
     try:
+        scan_moved()
         sess.flush()
     except CircularDependencyError:
         err = "circular"
@@ -1044,9 +1104,11 @@ def impl(c):
         # delete-orphan / delete cascades decide DURING the flush which rows go away; the harness does not
         # predict that, so the "final state is consistent" claim is made only for the scripted scenarios
         consistent = False
+    if "taint" in trouble:
+        consistent = False
     _last.update(err=err, consistent=consistent, rowcycle=rowcycle, unsupported=unsupported, trace=trace,
                  stale_cycle=stale_cycle, items=items, ref0=ref0, snap=snap, rels=rels, classes=classes,
-                 objcls=[cl.index(type(o)) for o in objs])
+                 objcls=[cl.index(type(o)) for o in objs], moved="moved" in trouble)
     if "sts" not in snap:
         # nothing to flush: _generate_actions never ran
         return [8]
@@ -1107,9 +1169,13 @@ def _classify(err):
     items = _last.get("items") or []
     if not items or items[-1][1][0] != 2:
         return ""
-    t = items[-1][1][1]
+    # the failing statement is the last one; a DELETE of several rows (executemany) appears as a run of
+    # delete items any of which may be the failing one
+    k = len(items)
+    while k > 0 and items[k - 1][1][0] == 2:
+        k -= 1
     cur = {(r, cc): tt for r, cc, tt in _last["ref0"]}
-    for ev, st in items[:-1]:
+    for ev, st in items[:k]:
         if st[0] == 0:
             for cc, tt in st[3]:
                 cur[(st[1], cc)] = tt
@@ -1117,29 +1183,35 @@ def _classify(err):
             for cc, tt in st[2]:
                 cur[(st[1], cc)] = tt
         elif st[0] == 2:
-            for k in [k for k in cur if k[0] == st[1]]:
-                del cur[k]
+            for key in [key for key in cur if key[0] == st[1]]:
+                del cur[key]
     role = {x[0]: x[3] for x in snap.get("sts", [])}
     mp = {x[0]: x[1] for x in snap.get("sts", [])}
     tags = set()
-    for (r, cc), tt in cur.items():
-        if tt != t or r == t:
-            continue
-        fl = rels[cc][3]
-        if fl >> 5 & 1 and role.get(r) == 2 and _last["objcls"][r] != rels[cc][1]:
-            tags.add(" [passive-deletes-subclass]")
-        elif fl >> 2 & 1:
-            if fl & 2 and role.get(r) == 1:
-                tags.add(" [post-o2m-delete-parent]")
+    for ev, st in items[k:]:
+        t = st[1]
+        for (r, cc), tt in list(cur.items()):
+            if tt != t or r == t:
+                continue
+            fl = rels[cc][3]
+            if fl >> 5 & 1 and role.get(r) == 2 and _last["objcls"][r] != rels[cc][1]:
+                tags.add(" [passive-deletes-subclass]")
+            elif fl & 2 and not (fl & 1) and _last.get("moved"):
+                tags.add(" [o2m-member-moved-to-deleted-parent]")
+            elif fl >> 2 & 1:
+                if fl & 2 and role.get(r) == 1:
+                    tags.add(" [post-o2m-delete-parent]")
+                else:
+                    tags.add("")
+            elif not (fl & 2) and role.get(r) == 1 and snap.get("cycles") and mp.get(r) != mp.get(t):
+                # does the unit of work know the old target (is it in the holder's get_all_pending list)?
+                dj = [d[0] for d in snap.get("deps", []) if d[1] == 1 and d[6] == cc]
+                known = any(l[0] in dj and l[1] == r and l[2] == t for l in snap.get("links", []))
+                tags.add(" [m2o-unset-delete-cycle]" if known else " [m2o-unset-delete-unloaded]")
             else:
                 tags.add("")
-        elif not (fl & 2) and role.get(r) == 1 and snap.get("cycles") and mp.get(r) != mp.get(t):
-            # does the unit of work know the old target (is it in the holder's get_all_pending list)?
-            dj = [d[0] for d in snap.get("deps", []) if d[1] == 1 and d[6] == cc]
-            known = any(l[0] in dj and l[1] == r and l[2] == t for l in snap.get("links", []))
-            tags.add(" [m2o-unset-delete-cycle]" if known else " [m2o-unset-delete-unloaded]")
-        else:
-            tags.add("")
+        for key in [key for key in cur if key[0] == t]:
+            del cur[key]
     return tags.pop() if len(tags) == 1 else ""
 
 
@@ -1151,6 +1223,7 @@ def match_finding(c, what):
         ("[m2o-unset-delete-cycle]", "C31-m2o-unset-delete-across-cycle"),
         ("[m2o-unset-delete-unloaded]", "C31-m2o-unset-delete-unloaded-old-target"),
         ("[passive-deletes-subclass]", "C31-passive-deletes-subclass-members"),
+        ("[o2m-member-moved-to-deleted-parent]", "C31-o2m-member-moved-to-deleted-parent"),
     ):
         if what.endswith(tag):
             return fid
